@@ -219,11 +219,22 @@ def run_property(pid: str, tier: str, seed: int) -> int:
             lemma_obs += obs
     # covers: one per function (a return path whose hypotheses are satisfiable)
     covers = []
+    cover_groups = {}
     for rep in fn_reports:
         cand = [o for o in rep.obligations if o.meta.get("kind") == "post"]
-        if cand:
-            o = cand[-1]
+        seen_paths = set()
+        group = []
+        for o in reversed(cand):
+            pth = o.name.rsplit("/", 1)[-1]
+            if pth in seen_paths:
+                continue
+            seen_paths.add(pth)
+            group.append(f"cover:{o.name}")
             covers.append((f"cover:{o.name}", tm.query(o.decls, o.hyps, None)))
+            if len(group) >= 6:
+                break
+        if group:
+            cover_groups[rep.con.name] = group
     queries = [(o.name, o.smt(), o.meta.get("solvers"), o.meta.get("timeout")) for o in obligations + lemma_obs]
     t_solve = time.time()
     results = solve.run_many(queries + [(n, q, None, None) for n, q in covers], timeout=timeout)
@@ -245,13 +256,17 @@ def run_property(pid: str, tier: str, seed: int) -> int:
             b["seconds"] += r.seconds
         else:
             failures.append((o.name, r.verdict, o.meta.get("detail", "")))
+    if os.environ.get("VERIF_LIST"):
+        for o in all_obs:
+            print("  OB", o.name, o.result.verdict, o.result.solver, f"{o.result.seconds:.2f}s")
     vac = 0
-    for n, _ in covers:
-        r = results[n]
-        if r.verdict == "unsat":
-            failures.append((n, "vacuous", "hypotheses of the return path are contradictory"))
-        elif r.verdict == "sat":
+    for fname, group in cover_groups.items():
+        verdicts = [results[n].verdict for n in group]
+        if "sat" in verdicts:
             vac += 1
+        elif all(v == "unsat" for v in verdicts):
+            failures.append((group[0], "vacuous", f"no return path of {fname} has satisfiable hypotheses "
+                                                   f"({len(group)} tried)"))
     # structural obligations
     struct_total = 0
     struct_ok = 0
@@ -370,7 +385,7 @@ def run_property(pid: str, tier: str, seed: int) -> int:
             structural_obligations=struct_total,
             by_backend={k: dict(count=v["count"], seconds=round(v["seconds"], 3)) for k, v in by_backend.items()},
             solver_wall_s=round(t_solve, 3), symexec_wall_s=round(t_sym, 3),
-            vacuity_checks=dict(covers=len(covers), satisfiable=vac),
+            vacuity_checks=dict(functions_with_cover=len(cover_groups), satisfiable=vac, queries=len(covers)),
             bounded=bounded_out,
             undecided_clauses=info.get("undecided", []),
             decided_clauses=info.get("decided", []),
